@@ -242,7 +242,13 @@ def run(ctx):
             ids = [204000 + a, 31021, el()] + inner + [102002, el(), el(), 204000, el()]
         else:
             ids = [el(), 204000 + a, 31021, el()] + inner + [101000, 31001, el(), 204000]
-        cases.append({'ids': ids, 'version': 33, 'edition': 4, 'nsub': rng.choice([1, 2]), 'compressed': False, 'forced': '-',
+        forced = '-'
+        if k % 3 == 0 and shape in (0, 1):
+            # quality information (a virtual attribute) on elements that also carry an associated field
+            ids = [204000 + a, 31021, el(), el(), el(), 204000, 222000, 236000, 101003, 31031, 33007, 33007]
+            bits = rng.choice([(0, 0, 1), (0, 1, 0), (1, 0, 0)])
+            forced = '31031=%d.%d.%d' % bits
+        cases.append({'ids': ids, 'version': 33, 'edition': 4, 'nsub': rng.choice([1, 2]), 'compressed': False, 'forced': forced,
                       'seed': rng.randrange(1, 2 ** 32), 'maxrep': 3, 'features': {'nested-204-then-outer': 1}, 'shared': False})
     P.attach_templates(cases)
     P.run_gen(cases)
